@@ -261,6 +261,16 @@ where
     ) -> Result<WriteEvent, Self::Error> {
         let _summary = self.summary().await?;
 
+        // Replace an existing row so that an identifier
+        // is never stored in more than one row
+        if let (_, Some(_)) = self.find_row(&id).await? {
+            self.update_secret(&id, commit, secret.clone()).await?;
+            return Ok(WriteEvent::CreateSecret(
+                id,
+                VaultCommit(commit, secret),
+            ));
+        }
+
         // Encode the row into a buffer
         let mut buffer = Vec::new();
         let mut writer =
